@@ -18,7 +18,8 @@ META = {
         required=['steps_monitored', 'guard_probes', 'rule_priority_preempt', 'rule_inner_first_prune',
                   'rule_eventless_preempts_pending_event'],
         modes=[('select', 7, dict(p_guard=0.75, max_trans=18, min_trans=5)), ('clash', 1, dict(p_guard=0.6)),
-               ('orth', 2, dict(p_orth=0.45, p_guard=0.7))],
+               ('orth', 2, dict(p_orth=0.45, p_guard=0.7)),
+               ('timed', 2, dict(p_orth=0.45, timed_plain=0.7, p_guard=0.3, p_internal=0.3))],
     ),
     'C02': dict(
         rule='Same driver, charts biased to orthogonal content and to transitions that enter states nested in regions '
